@@ -133,7 +133,19 @@ def _lg_case(rng, tier, i, specs_p, specs_e, models):
     prior = {"type": "gaussian", "form": form_p, "shape": shape_p, "scale": rng.choice([0.3, 1.0, 3.0])}
     if model in ("matrix", "func") and dgeom in ("default", "cont1d") and i % 9 == 4 and n >= 3:
         prior = {"type": "gmrf", "order": rng.choice([1, 2]), "delta": rng.choice([0.5, 3.0, 20.0])}
-    case = {"kind": "lg", "i": i, "n": n, "m": m, "nf": nf, "h": h, "w": w, "rh": rh, "rw": rw,
+    tp = None
+    if i % 25 == 11:
+        # the library's own Deconvolution1D test problem (convolution operator backed by functions, or the legacy matrix)
+        model, dgeom, rgeom, h, w, rh, rw = "deconv1d", "cont1d", "cont1d", 0, 0, 0, 0
+        n = m = nf = rng.randint(8, 28 if tier == "quick" else 48)
+        legacy = rng.random() < 0.25
+        tp = {"psf": "Gauss" if legacy else rng.choice(["Gauss", "Moffat", "Defocus"]),
+              "bc": "periodic" if legacy else rng.choice(["periodic", "zero", "Mirror", "Reflect", "Nearest"]),
+              "phantom": rng.choice(["Gauss", "sinc", "pc", "skyscraper"]), "legacy": legacy,
+              "noise_std": rng.choice([0.01, 0.05, 0.2])}
+        form_e, shape_e = "cov", "scalar"
+        prior = {"type": "gaussian", "form": form_p, "shape": shape_p, "scale": rng.choice([0.3, 1.0, 3.0])}
+    case = {"kind": "lg", "i": i, "n": n, "m": m, "nf": nf, "h": h, "w": w, "rh": rh, "rw": rw, "tp": tp,
             "model": model, "dgeom": dgeom, "rgeom": rgeom, "prior": prior,
             "noise": {"form": form_e, "shape": shape_e, "scale": rng.choice([0.01, 0.05, 0.3, 1.0])},
             "mean": rng.choice(["vector"] * 8 + ["zero", "zero", "scalar", "scalar0"]),
@@ -390,7 +402,10 @@ def build_lg(case, rs):
     from cuqi.model import LinearModel, Model
     from cuqi.problem import BayesianProblem
     b = Built()
+    b.data_override = None
     n, m, nf = case["n"], case["m"], case["nf"]
+    if case["model"] == "deconv1d":
+        return _build_deconv(case, rs, b)
     A_fun = rs.standard_normal((m, nf)) / np.sqrt(nf)
     dgeom = _geometry(case, rs, "domain")
     rgeom = _geometry(case, rs, "range")
@@ -465,6 +480,36 @@ def build_lg(case, rs):
     b.make_BP = make
     return b
 
+def _prior_mean(case, rs, n):
+    mean_kind = case["mean"]
+    if mean_kind == "scalar":
+        sc = float(rs.uniform(-2, 2)); return sc, sc * np.ones(n)
+    if mean_kind == "scalar0":
+        return 0.0, np.zeros(n)
+    if mean_kind == "zero":
+        return np.zeros(n), np.zeros(n)
+    mu = rs.standard_normal(n) * 1.5
+    return mu.copy(), mu
+
+def _build_deconv(case, rs, b):
+    import cuqi
+    from cuqi.distribution import Gaussian
+    n, tp = case["n"], case["tp"]
+    mu_arg, mu_true = _prior_mean(case, rs, n)
+    kw, Cx = _make_gaussian_kwargs(rs, n, case["prior"])
+    pg = {"geometry": n} if (np.ndim(mu_arg) == 0 and case["prior"]["shape"] == "scalar") else {}
+    prior = Gaussian(mu_arg, name="x", **kw, **pg)
+    np.random.seed(int(rs.randint(0, 2 ** 31 - 1)))          # the test problem draws its noise from the global generator
+    TP = cuqi.testproblem.Deconvolution1D(dim=n, PSF=tp["psf"], BC=tp["bc"], phantom=tp["phantom"],
+                                          noise_std=tp["noise_std"], prior=prior, use_legacy=tp["legacy"])
+    b.prior_kwargs = kw
+    b.model_user, b.A_fun = TP.model, None
+    b.mu, b.Cx, b.Ce = mu_true, Cx, tp["noise_std"] ** 2 * np.eye(n)
+    b.x_true = mu_true
+    b.data_override = _vec(TP.data).copy()
+    b.make_BP = lambda data: TP
+    return b
+
 def observe_matrix(model, n, m, rs):
     """Parameter-space matrix of the model as observed through forward(e_i); None if not linear."""
     A = np.zeros((m, n))
@@ -495,8 +540,11 @@ def run_lg(case, ctx):
         ctx.refused("build", e); ctx.count("build_failed")
         return
     # data from the model's own forward on a prior draw + noise
-    y_clean = _vec(B.model_user.forward(B.x_true))
-    data = y_clean + np.linalg.cholesky(B.Ce) @ rs.standard_normal(m)
+    if B.data_override is not None:
+        data = B.data_override
+    else:
+        y_clean = _vec(B.model_user.forward(B.x_true))
+        data = y_clean + np.linalg.cholesky(B.Ce) @ rs.standard_normal(m)
     try:
         BP = B.make_BP(data)
     except Exception as e:
@@ -883,6 +931,7 @@ def run_nl(case, ctx):
             ctx.note(target + "_gain_tol_climb", [facts["gain"], facts["tol"], facts["climb"], facts.get("grad_ratio")])
 
 def run_case(case, ctx):
+    np.random.seed(core.np_rng(ctx.seed, PROPERTY, "global", core.canon(case)).randint(0, 2 ** 31 - 1))   # reproducible replays
     if case["kind"] == "lg":
         run_lg(case, ctx)
     else:
